@@ -658,6 +658,25 @@ func (c *Ctx) helpScan() *ssa.Function {
 				}
 			}
 		})
+		if !(h && hh) {
+			// the two names kept in a read-only package-level table
+			ir.Instrs(fn, func(in ssa.Instruction) {
+				if ld, ok := in.(*ssa.UnOp); ok && ld.Op == token.MUL {
+					if g, isG := ld.X.(*ssa.Global); isG && isStringSlice(ld.Type()) {
+						if ss, okT := globalTableStrings(c, g); okT {
+							for _, s := range ss {
+								if s == "-h" {
+									h = true
+								}
+								if s == "--help" {
+									hh = true
+								}
+							}
+						}
+					}
+				}
+			})
+		}
 		if h && hh {
 			return fn
 		}
@@ -926,7 +945,7 @@ func cmd4(c *Ctx) {
 			if s, isS := ir.ConstString(other); isS && (s == "-h" || s == "--help") {
 				okSet = true
 			} else if sl, isR := rangeElem(other); isR {
-				elems := sliceLitStrings(sl)
+				elems := c.stringSet(sl)
 				sort.Strings(elems)
 				if len(elems) == 2 && elems[0] == "--help" && elems[1] == "-h" {
 					okSet = true
@@ -975,7 +994,7 @@ func cmd4(c *Ctx) {
 				if exit == nil {
 					return
 				}
-				for _, sp := range sliceLitStrings(sl) {
+				for _, sp := range c.stringSet(sl) {
 					if m, known := cutFor[sp]; known {
 						m[ir.Edge{From: h, To: exit}] = true
 					}
@@ -989,13 +1008,10 @@ func cmd4(c *Ctx) {
 				continue
 			}
 			blocked := map[*ssa.BasicBlock]bool{}
-			r := ir.Reach(entry, blocked, cutFor[sp])
 			reachHdr := false
-			for b := range r {
-				for _, sc := range b.Succs {
-					if sc == hdr && !cutFor[sp][ir.Edge{From: b, To: sc}] && b != hdr {
-						reachHdr = true
-					}
+			for e := range ir.ReachEdges(entry, blocked, cutFor[sp]) {
+				if e.To == hdr && e.From != hdr && !cutFor[sp][e] {
+					reachHdr = true
 				}
 			}
 			if reachHdr {
@@ -1021,6 +1037,22 @@ func cmd4(c *Ctx) {
 }
 
 // sliceLitStrings: v = slice of a local array literal; returns its constant strings.
+// stringSet: the constant strings of a slice that is either a local literal or a read-only
+// package-level table.
+func (c *Ctx) stringSet(v ssa.Value) []string {
+	if out := sliceLitStrings(v); out != nil {
+		return out
+	}
+	if ld, ok := v.(*ssa.UnOp); ok && ld.Op == token.MUL {
+		if g, isG := ld.X.(*ssa.Global); isG {
+			if out, okT := globalTableStrings(c, g); okT {
+				return out
+			}
+		}
+	}
+	return nil
+}
+
 func sliceLitStrings(v ssa.Value) []string {
 	sl, ok := v.(*ssa.Slice)
 	if !ok {
@@ -1066,21 +1098,41 @@ func cmd5(c *Ctx) {
 	// the version test: a helper call deciding the entry block, or `version != nil && firstItem(args, names)` inline
 	var test *ssa.Call
 	inline := false
-	isVersionNilTest := func(v ssa.Value) bool {
-		bo, ok := v.(*ssa.BinOp)
-		if !ok || bo.Op != token.NEQ || !ir.IsNilConst(bo.Y) {
-			return false
+	// versionNil: v compares the version record with nil; declared is the outcome meaning "a version was declared"
+	versionNil := func(v ssa.Value) (declared bool, ok bool) {
+		bo, isBo := v.(*ssa.BinOp)
+		if !isBo || (bo.Op != token.NEQ && bo.Op != token.EQL) || !ir.IsNilConst(bo.Y) {
+			return false, false
 		}
 		_, f, isF := ir.FieldLoad(bo.X)
-		return isF && f == "version"
+		return bo.Op == token.NEQ, isF && f == "version"
+	}
+	isVersionDeclaredAt := func(v ssa.Value, b *ssa.BasicBlock) bool {
+		d, ok := versionNil(v)
+		return ok && ir.HoldsAt(v, d, b)
+	}
+	stripNot := func(v ssa.Value) (ssa.Value, bool) {
+		neg := false
+		for {
+			u, ok := v.(*ssa.UnOp)
+			if !ok || u.Op != token.NOT {
+				return v, neg
+			}
+			v, neg = u.X, !neg
+		}
 	}
 	if iff, ok := fn.Blocks[0].Instrs[len(fn.Blocks[0].Instrs)-1].(*ssa.If); ok {
-		if cv, isCall := iff.Cond.(*ssa.Call); isCall {
+		cond, neg := stripNot(iff.Cond)
+		if cv, isCall := cond.(*ssa.Call); isCall {
 			test = cv
-		} else if isVersionNilTest(iff.Cond) {
+		} else if d, isV := versionNil(cond); isV {
 			nb := fn.Blocks[0].Succs[0]
+			if d == neg {
+				nb = fn.Blocks[0].Succs[1]
+			}
 			if iff2, ok2 := nb.Instrs[len(nb.Instrs)-1].(*ssa.If); ok2 {
-				if cv, isCall := iff2.Cond.(*ssa.Call); isCall && cv.Block() == nb {
+				c2, _ := stripNot(iff2.Cond)
+				if cv, isCall := c2.(*ssa.Call); isCall && cv.Block() == nb {
 					test, inline = cv, true
 				}
 			}
@@ -1159,7 +1211,7 @@ func cmd5(c *Ctx) {
 	checkFirstCall := func(host *ssa.Function, callEdge *ssa.Call, vec ssa.Value) bool {
 		guard := false
 		ir.Instrs(host, func(in ssa.Instruction) {
-			if v, ok := in.(ssa.Value); ok && isVersionNilTest(v) && ir.HoldsAt(v, true, callEdge.Block()) {
+			if v, ok := in.(ssa.Value); ok && isVersionDeclaredAt(v, callEdge.Block()) {
 				guard = true
 			}
 		})
@@ -1313,6 +1365,8 @@ func cmd5first(c *Ctx, fn *ssa.Function) {
 			}
 		}
 	})
+	var setLoop *ssa.BasicBlock
+	var falses []*ir.RetPoint
 	for _, r := range ir.ReturnPoints(fn) {
 		b, isC := ir.ConstBool(r.Results[0])
 		if !isC {
@@ -1320,6 +1374,7 @@ func cmd5first(c *Ctx, fn *ssa.Function) {
 			continue
 		}
 		if !b {
+			falses = append(falses, r)
 			continue
 		}
 		good := false
@@ -1337,12 +1392,32 @@ func cmd5first(c *Ctx, fn *ssa.Function) {
 			if other == nil {
 				return
 			}
-			if sl, isR := rangeElem(other); isR && sl == ssa.Value(set) {
+			if sl, h, isR := rangeElemHeader(other); isR && sl == ssa.Value(set) {
 				good = true
+				setLoop = h
 			}
 		})
 		if !good {
 			problems = append(problems, "true is returned without args[0] being equal to an element of the set")
+		}
+	}
+	// false only for the empty vector, or after every element of the set was compared: with the edges
+	// "the vector is empty" and "the loop over the set is exhausted" cut, no `return false` is reachable
+	if len(falses) > 0 {
+		cut := map[ir.Edge]bool{}
+		for _, e := range lenOnlyZeroEdges(fn, vec) {
+			cut[e] = true
+		}
+		if setLoop != nil {
+			if _, _, exit := loopBody(setLoop); exit != nil {
+				cut[ir.Edge{From: setLoop, To: exit}] = true
+			}
+		}
+		reach := ir.Reach(fn.Blocks[0], nil, cut)
+		for _, r := range falses {
+			if r.ReachableUnder(reach, cut) {
+				problems = append(problems, "false can be returned for a non-empty vector before args[0] was compared with every element of the set")
+			}
 		}
 	}
 	sort.Strings(problems)
@@ -1351,6 +1426,87 @@ func cmd5first(c *Ctx, fn *ssa.Function) {
 	} else {
 		c.OK(key, fn.Pos(), "true iff the vector is non-empty and args[0] equals an element of the set; no other position is read")
 	}
+}
+
+// lenOnlyZeroEdges: the CFG edges taken on an outcome of a test len(v) op k that is possible for length 0
+// and impossible for every positive length.
+func lenOnlyZeroEdges(fn *ssa.Function, v ssa.Value) []ir.Edge {
+	var out []ir.Edge
+	ir.Instrs(fn, func(in ssa.Instruction) {
+		bo, ok := in.(*ssa.BinOp)
+		if !ok {
+			return
+		}
+		k, isC := ir.ConstInt(bo.Y)
+		if !isC {
+			return
+		}
+		lc, isCall := bo.X.(*ssa.Call)
+		if !isCall {
+			return
+		}
+		if bi, isB := lc.Call.Value.(*ssa.Builtin); !isB || bi.Name() != "len" || lc.Call.Args[0] != v {
+			return
+		}
+		for _, want := range []bool{true, false} {
+			z, okZ := lenCmp(bo.Op, 0, k)
+			if !okZ || z != want {
+				continue
+			}
+			only := true
+			for n := int64(1); n <= k+2 || n <= 3; n++ {
+				if o, okO := lenCmp(bo.Op, n, k); !okO || o == want {
+					only = false
+				}
+			}
+			if only {
+				for _, e := range ir.EdgesWhere(fn, bo, want) {
+					out = append(out, ir.Edge{From: e.From, To: e.To})
+				}
+			}
+		}
+	})
+	return out
+}
+
+func lenOnlyZeroAtUnused(fn *ssa.Function, v ssa.Value, r *ir.RetPoint) bool {
+	found := false
+	ir.Instrs(fn, func(in ssa.Instruction) {
+		bo, ok := in.(*ssa.BinOp)
+		if !ok || found {
+			return
+		}
+		k, isC := ir.ConstInt(bo.Y)
+		if !isC {
+			return
+		}
+		lc, isCall := bo.X.(*ssa.Call)
+		if !isCall {
+			return
+		}
+		if bi, isB := lc.Call.Value.(*ssa.Builtin); !isB || bi.Name() != "len" || lc.Call.Args[0] != v {
+			return
+		}
+		for _, want := range []bool{true, false} {
+			if !r.Holds(bo, want) {
+				continue
+			}
+			z, okZ := lenCmp(bo.Op, 0, k)
+			if !okZ || z != want {
+				continue
+			}
+			only := true
+			for n := int64(1); n <= k+2 || n <= 3; n++ {
+				if o, okO := lenCmp(bo.Op, n, k); !okO || o == want {
+					only = false
+				}
+			}
+			if only {
+				found = true
+			}
+		}
+	})
+	return found
 }
 
 func lenNonZeroAt(fn *ssa.Function, v ssa.Value, b *ssa.BasicBlock) bool {
@@ -2260,8 +2416,12 @@ func cmd10(c *Ctx) {
 		st0, err0 := extractOf(pcall, 0), extractOf(pcall, 1)
 		ir.Instrs(fn, func(in ssa.Instruction) {
 			if st, ok := in.(*ssa.Store); ok {
-				if b, f, isF := ir.FieldAddr(st.Addr); isF && f == "fsm" && b == ssa.Value(recv) && st.Val == st0 && err0 != nil && errIsNilAt(err0, st.Block()) {
-					okStore = true
+				if b, f, isF := ir.FieldAddr(st.Addr); isF && f == "fsm" && b == ssa.Value(recv) && err0 != nil && errIsNilAt(err0, st.Block()) {
+					// the stored value is the parser's result, possibly merged with the (excluded) outcomes of
+					// an earlier failure at a join
+					if vs := ir.PhiValuesAt(st.Val, st.Block()); len(vs) == 1 && vs[0] == st0 {
+						okStore = true
+					}
 				}
 			}
 		})
@@ -2275,6 +2435,15 @@ func cmd10(c *Ctx) {
 			for _, r := range ir.ReturnPoints(fn) {
 				if r.Results[0] == e && errIsNonNilH(e, r.Block(), r.Holds) {
 					ret = true
+				}
+				// merged at a join: the merged error is returned whenever it is non-nil, and e is one of the
+				// values that flow into it
+				if q, isPhi := r.Results[0].(*ssa.Phi); isPhi && errCmpH(q, r.Holds, false) {
+					for _, qe := range q.Edges {
+						if qe == e {
+							ret = true
+						}
+					}
 				}
 			}
 			if !ret {
